@@ -1879,6 +1879,122 @@ def suite_safe_real(ctx):
     return res
 
 
+def _packed_groups(txt):
+    """[(first line index, last line index, head before '=|', logical one-line value)] for every packed variable; a value continues
+    on the next physical line while the line ends in a backslash"""
+    lines = txt.split("\n")
+    out = []
+    i = 0
+    while i < len(lines):
+        if "=|" in lines[i] and not lines[i].lstrip().startswith("#"):
+            head, _, val = lines[i].partition("=|")
+            parts = [val]
+            j = i
+            while parts[-1].rstrip().endswith("\\") and j + 1 < len(lines):
+                parts[-1] = parts[-1].rstrip()[:-1]
+                j += 1
+                parts.append(lines[j])
+            out.append((i, j, head, "".join(p.strip() + " " for p in parts).strip()))
+            i = j + 1
+        else:
+            i += 1
+    return lines, out
+
+
+def _sabotaged(txt):
+    """texts derived from a good beautified text that make a packed (=|) value fail part-way: a dict without its last key(s),
+    an empty dict, a wrong type, a cut in the middle of the value"""
+    lines, groups = _packed_groups(txt)
+    out = []
+    for (i, j, head, val) in groups[:4]:
+        variants = []
+        if val.startswith("{") and "," in val:
+            cut = val.rfind(",")
+            variants.append(val[:cut] + "}")
+            cut2 = val.rfind(",", 0, cut)
+            if cut2 > 0:
+                variants.append(val[:cut2] + "}")
+        if val.startswith("(") and "," in val:
+            variants.append(val[:val.rfind(",")] + ")")
+        if val.startswith("[") and "," in val:
+            variants.append(val[:val.rfind(",")] + "]")
+        variants += ["{}", "None", "()", "{'Nope': 1}"]
+        for v in variants:
+            out.append("\n".join(lines[:i] + [head + "=| " + v] + lines[j + 1:]))
+    if groups:
+        i, j, head, val = groups[0]
+        out.append("\n".join(lines[:i] + [head + "=| " + val[:max(1, 2 * len(val) // 3)]]))
+    return out
+
+
+def suite_poison(ctx):
+    """a text that is REJECTED must leave nothing behind: parsing the same good text before and after any number of rejected texts
+    gives the same datagram body (the parser and the subfield serializers keep no state between calls)"""
+    res = CorrResult(suite="repeatability: a good text parses to the same body before and after rejected texts (impl-level oracle)",
+                     rule="beautified texts of wire messages with packed (=|) subfields; between two parses of the good text, up to 12 "
+                          "sabotaged variants of it (packed dict without its last keys, empty dict, wrong type, cut inside the value) are "
+                          "parsed and may raise at any point; clause: text -> safe parse -> body is a function of the text. "
+                          "non-trivial = good texts for which at least one sabotaged variant was rejected")
+    im = impl()
+    n = nt = 0
+    want = ctx.pick(60, 600)
+    max_scan = ctx.pick(2500, 20000)
+    scanned = plain_taken = 0
+    seen_cls = set()
+    for kind, dgx in wire_cases(ctx):
+        if dgx is None:
+            continue
+        if n >= want:
+            break
+        scanned += 1
+        if scanned > max_scan:
+            break
+        r = check_roundtrip(im, dgx, True, False, False)
+        if r["status"] != "ok" or "=|" not in r.get("text", ""):
+            continue
+        txt = r["text"]
+        # prefer texts with a one-line dict/tuple valued packed field (a template-based subfield: the writer can fail part-way);
+        # take the others only while few of those have been found
+        rich = any((v[:1] == "{" or v[:2] in ("[{", "({")) and "," in v for (_i, _j, _h, v) in _packed_groups(txt)[1])
+        if not rich:
+            plain_taken += 1
+            if plain_taken > want // 4:
+                continue
+        try:
+            body0 = im.body(im.H.from_human_string(txt, safe=True))
+        except Exception:
+            continue
+        n += 1
+        rejected = 0
+        for bad in _sabotaged(txt)[:12]:
+            try:
+                im.body(im.H.from_human_string(bad, safe=True))
+            except BaseException as e:  # noqa
+                if isinstance(e, (KeyboardInterrupt, SystemExit)):
+                    raise
+                rejected += 1
+            try:
+                body1 = im.body(im.H.from_human_string(txt, safe=True))
+            except BaseException as e:  # noqa
+                if isinstance(e, (KeyboardInterrupt, SystemExit)):
+                    raise
+                body1 = ("EXC:" + type(e).__name__).encode()
+            if body1 != body0:
+                if "parse-not-repeatable" not in seen_cls:
+                    seen_cls.add("parse-not-repeatable")
+                    res.impl_violations.append({"clause": "the text parses back to a message that encodes to the same datagram body - also when "
+                                                          "another text was rejected in between", "class": "parse-not-repeatable",
+                                                "datagram": dgx, "rejected_text": bad[-400:], "want": body0.hex()[:300],
+                                                "got": body1.hex()[:300] if not body1.startswith(b"EXC:") else body1.decode()})
+                # re-establish a clean state as far as possible and go on
+                break
+        if rejected:
+            nt += 1
+    res.evaluations = n
+    res.distinct_nontrivial = nt
+    return res
+
+
 def correspond(ctx):
     seeds = []
     r1 = suite_classes(ctx)
@@ -1896,7 +2012,8 @@ def correspond(ctx):
     ctx.notes.append("oracle-only: packed (=|) forms and their subfield serializers, uuid/vector/float values, replacement tokens (var_ok checked per "
                      "generated value by the wire suite); str.isprintable table (premise: no printable surrogate, checked exhaustively)")
     r6 = suite_safe_real(ctx)
-    return [r1, r2, r3, r4, r5, r6]
+    r7 = suite_poison(ctx)
+    return [r1, r2, r3, r4, r5, r6, r7]
 
 
 # --------------------------------------------------------------------------- search / replay
@@ -1997,6 +2114,25 @@ def replay(ctx, case):
         if r["status"] == "violation":
             return True, public_case(r)
         return False, "holds (%s)" % r.get("why", r["status"])
+    if cls == "parse-not-repeatable":
+        try:
+            m0 = im.decode(bytes.fromhex(case["datagram"]))
+            txt = str(im.H.to_human_string(m0, beautify=True))
+            body0 = im.body(im.H.from_human_string(txt, safe=True))
+            for bad in _sabotaged(txt)[:12]:
+                try:
+                    im.body(im.H.from_human_string(bad, safe=True))
+                except Exception:
+                    pass
+                try:
+                    b1 = im.body(im.H.from_human_string(txt, safe=True))
+                except Exception as e:
+                    return True, {"after_rejected_text": bad[-200:], "got": "EXC:" + type(e).__name__}
+                if b1 != body0:
+                    return True, {"after_rejected_text": bad[-200:], "want": body0.hex()[:200], "got": b1.hex()[:200]}
+            return False, "repeatable"
+        except Exception as e:
+            return False, "case no longer applies: " + type(e).__name__
     if cls in ("safe-mode-eval", "safe-mode-expression-accepted") and "value_text" in case:
         r = suite_safe_real(ctx)
         for v in r.impl_violations:
